@@ -33,6 +33,8 @@ def action_steps(B, text):
     cr = compile_tree(B, tree, opts)
     ces = [ce for g, v in cr.alts if is_ok(v) for _, ce in flatten_value(v.fields[0])]
     if len(ces) != 1:
+        if "\\c" in text and not ces:
+            raise ReadError("\\c is refused by compile")        # handled by the caller like the formerly unreadable program
         raise Inconclusive("program %r does not compile to one program" % text)
     items = render(B, cr, ces[0])
     M, tv, data = run_program(items, FileRec("c16"))
